@@ -62,7 +62,7 @@ def coq_out(o):
 def coq_steps(steps):
     out = []
     for i, st in enumerate(steps):
-        out.append('(%s, %s, %s)' % (cZ(0 if i == 0 else st['dt']), clist(st['evs']), coq_out(st['o'])))
+        out.append('(%s, (%s : list event), %s)' % (cZ(0 if i == 0 else st['dt']), clist(st['evs']), coq_out(st['o'])))
     return clist(out)
 
 
@@ -76,8 +76,8 @@ def coq_obs(o):
 def coq_case(cfg, steps, res):
     xs = clist(['{| x_launch := %s; x_pf := %s; x_rc := %s |}' % (cZ(t), cbool(p), copt(rc, cZ))
                 for (t, p, rc, _lo, _k) in res['execs']])
-    return '(%s, %s, (%s, %s, %s))' % (coq_cfg(cfg), coq_steps(steps), clist([coq_obs(o) for o in res['obs']]),
-                                       cbool(res['finished']), xs)
+    return '(%s, %s, (%s, %s, (%s : list exec)))' % (coq_cfg(cfg), coq_steps(steps),
+                                                     clist([coq_obs(o) for o in res['obs']]), cbool(res['finished']), xs)
 
 
 # ------------------------------------------------------------------ property predicate on the implementation's run
